@@ -1,6 +1,6 @@
 From Coq Require Import List NArith Bool Arith Permutation.
 Import ListNotations.
-Require Import Verif.C17.Model Verif.C17.Proofs Verif.Gen.C17Allow.
+Require Import Verif.C17.Model Verif.C17.Proofs Verif.C17.Proofs2 Verif.Gen.C17Allow.
 Open Scope N_scope.
 
 Theorem C17_skip_ignore :
@@ -211,3 +211,127 @@ Theorem C17_display_bounds_kept :
     bs = fc_bounds pred (dc_common pred c) ++ flat_map (fun a => fc_bounds pred (dc_common pred a)) vas.
 Proof. exact L_C17_display_bounds_kept. Qed.
 Print Assumptions C17_display_bounds_kept.
+
+(** `bound(p1, .., pn)` == n attributes `bound(pi)`; a trailing comma inside `bound(..)` changes nothing *)
+Theorem C17_bounds_merge :
+  forall (pred : Type) (parse_pred : list tok -> option (pred * list tok)) (fmt_args_ok : list tok -> bool)
+         (name kw : N) (segs : list (list tok * pred)),
+    kw = k_bound \/ kw = k_bounds ->
+    Forall (fun sa => complete parse_pred (fst sa) (snd sa)) segs -> segs <> [] ->
+    (parse_attrs (fcont_pm pred parse_pred fmt_args_ok) name [mk name [TId kw; TGr 0 (join (map fst segs))]]
+       = Ok (Some {| fc_fmt := None; fc_bounds := map snd segs |}) /\
+     parse_attrs (fcont_pm pred parse_pred fmt_args_ok) name (map (fun sa => mk name [TId kw; TGr 0 (fst sa)]) segs)
+       = Ok (Some {| fc_fmt := None; fc_bounds := map snd segs |})) /\
+    pm_parse (fcont_pm pred parse_pred fmt_args_ok) (mk name [TId kw; TGr 0 (join (map fst segs) ++ [TComma])]) =
+    pm_parse (fcont_pm pred parse_pred fmt_args_ok) (mk name [TId kw; TGr 0 (join (map fst segs))]).
+Proof. exact L_C17_bounds_merge. Qed.
+Print Assumptions C17_bounds_merge.
+
+(** any order of the literal, `rename_all` and `bound(..)` attributes of one struct / enum / variant *)
+Theorem C17_fmt_container_order_independent :
+  forall (pred : Type) (parse_pred : list tok -> option (pred * list tok)) (fmt_args_ok : list tok -> bool)
+         (name : N) (attrs attrs' : list attr),
+    Permutation attrs attrs' ->
+    (forall c, parse_attrs (fcont_pm pred parse_pred fmt_args_ok) name attrs = Ok (Some c) ->
+       exists c', parse_attrs (fcont_pm pred parse_pred fmt_args_ok) name attrs' = Ok (Some c') /\
+                  fc_fmt pred c' = fc_fmt pred c /\ Permutation (fc_bounds pred c) (fc_bounds pred c')) /\
+    (forall c, parse_attrs (dcont_pm pred parse_pred fmt_args_ok) name attrs = Ok (Some c) ->
+       exists c', parse_attrs (dcont_pm pred parse_pred fmt_args_ok) name attrs' = Ok (Some c') /\
+                  dc_rename pred c' = dc_rename pred c /\
+                  fc_fmt pred (dc_common pred c') = fc_fmt pred (dc_common pred c) /\
+                  Permutation (fc_bounds pred (dc_common pred c)) (fc_bounds pred (dc_common pred c'))).
+Proof. exact L_C17_fmt_container_order_independent. Qed.
+Print Assumptions C17_fmt_container_order_independent.
+
+(** silent-ignore freedom of the fmt containers: the casing, the literal and every predicate of every
+    accepted attribute are in the merged result (whose bounds all reach the where clause: C17_display_bounds_kept) *)
+Theorem C17_fmt_container_nothing_dropped :
+  forall (pred : Type) (parse_pred : list tok -> option (pred * list tok)) (fmt_args_ok : list tok -> bool)
+         (name : N) (attrs : list attr) (a : attr),
+    In a (named name attrs) ->
+    (forall c x, parse_attrs (fcont_pm pred parse_pred fmt_args_ok) name attrs = Ok (Some c) ->
+       pm_parse (fcont_pm pred parse_pred fmt_args_ok) a = Ok x ->
+       (forall f, fc_fmt pred x = Some f -> fc_fmt pred c = Some f) /\
+       (forall p, In p (fc_bounds pred x) -> In p (fc_bounds pred c))) /\
+    (forall c x, parse_attrs (dcont_pm pred parse_pred fmt_args_ok) name attrs = Ok (Some c) ->
+       pm_parse (dcont_pm pred parse_pred fmt_args_ok) a = Ok x ->
+       (forall r, dc_rename pred x = Some r -> dc_rename pred c = Some r) /\
+       (forall f, fc_fmt pred (dc_common pred x) = Some f -> fc_fmt pred (dc_common pred c) = Some f) /\
+       (forall p, In p (fc_bounds pred (dc_common pred x)) -> In p (fc_bounds pred (dc_common pred c)))).
+Proof. exact L_C17_fmt_container_nothing_dropped. Qed.
+Print Assumptions C17_fmt_container_nothing_dropped.
+
+(** any order of the `#[into(..)]` attributes: per list (owned / ref / ref_mut) the same flag, the types permuted *)
+Theorem C17_into_order_independent :
+  forall (ty : Type) (parse_type : list tok -> option (ty * list tok)) (lg : bool)
+         (name : N) (attrs attrs' : list attr) (c : convs ty),
+    Permutation attrs attrs' ->
+    parse_attrs (convs_pm ty parse_type lg) name attrs = Ok (Some c) ->
+    forall slot, slot = cv_owned ty \/ slot = cv_ref ty \/ slot = cv_ref_mut ty ->
+    exists c', parse_attrs (convs_pm ty parse_type lg) name attrs' = Ok (Some c') /\
+               cv_fields ty (slot c') = cv_fields ty (slot c) /\
+               Permutation (cv_tys ty (slot c)) (cv_tys ty (slot c')).
+Proof. exact L_C17_into_order_independent. Qed.
+Print Assumptions C17_into_order_independent.
+
+(** legacy meta parser: a trailing comma changes nothing at the attribute's own level, at any list level
+    (all levels are parsed by the same function), in particular inside not(..) / owned(..) / ..;
+    and with enough fuel (more than the size of the token tree) the model does not depend on the fuel *)
+Theorem C17_legacy_trailing_comma :
+  (forall name ts allowed, ts <> [] -> ends_comma ts = false ->
+     get_meta_info name [mk name (ts ++ [TComma])] allowed = get_meta_info name [mk name ts] allowed) /\
+  (forall f info ts allowed w, ts <> [] -> ends_comma ts = false -> (toks_size ts + 1 < f)%nat ->
+     lmeta_list f info (ts ++ [TComma]) allowed w = lmeta_list f info ts allowed w) /\
+  (forall f info i inner rest allowed w, inner <> [] -> ends_comma inner = false -> (toks_size inner + 2 < f)%nat ->
+     lmeta_list (S f) info (TId i :: TGr 0 (inner ++ [TComma]) :: rest) allowed w =
+     lmeta_list (S f) info (TId i :: TGr 0 inner :: rest) allowed w) /\
+  (forall f g info ts allowed w, (toks_size ts < f)%nat -> (f <= g)%nat ->
+     lmeta_list g info ts allowed w = lmeta_list f info ts allowed w).
+Proof. exact L_C17_legacy_trailing_comma. Qed.
+Print Assumptions C17_legacy_trailing_comma.
+
+(** legacy meta parser: the parameters of one attribute in any order give the same result, and an accepted
+    list records every parameter (closed form: each sets its own field) *)
+Theorem C17_legacy_param_order_independent :
+  (forall ids ids' f info allowed,
+     Permutation ids ids' -> (length ids < f)%nat ->
+     lmeta_list f info (flat ids') allowed WNone = lmeta_list f info (flat ids) allowed WNone) /\
+  (forall ids f info allowed r i,
+     (length ids < f)%nat -> lmeta_list f info (flat ids) allowed WNone = Ok r -> In i ids ->
+     mem i allowed = true /\ known_param i = true /\ r = closed_none info ids).
+Proof. exact L_C17_legacy_param_order_independent. Qed.
+Print Assumptions C17_legacy_param_order_independent.
+
+(** positions: a parameter is accepted at a position iff the position's allow-list (regenerated from the
+    sources into Gen/C17Allow.v) names it; a position with an empty allow-list refuses the attribute *)
+Theorem C17_legacy_positions :
+  (forall name allowed i, known_param i = true ->
+     is_ok (get_meta_info name [mk name [TId i]] allowed) = mem i allowed) /\
+  (forall name allowed i, known_param i = false -> i <> k_not ->
+     is_ok (get_meta_info name [mk name [TId i]] allowed) = false) /\
+  (forall row, In row c17_allow_table ->
+     let '(name, _, (e, v, s, fl)) := row in
+     forall al, In al [e; v; s; fl] -> forall i, In i params7 ->
+     is_ok (get_meta_info name [mk name [TId i]] al) = mem i al) /\
+  (forall name attrs a l, named name attrs = a :: l -> get_meta_info name attrs [] = Err ENotAllowed).
+Proof. exact L_C17_legacy_positions. Qed.
+Print Assumptions C17_legacy_positions.
+
+(** witnesses for the known findings not covered by C17_no_silent_ignore_refuted: into-duplicate-flag-accepted,
+    into-field-duplicate-empty-accepted, keyword-trailing-comma-rejected, display-rename_all-on-nonunit-ignored *)
+Theorem C17_known_findings_refuted_2 :
+  (pm_parse (convs_pm tt_ty simple_type true) (mk 101 [TId k_owned; TComma; TId k_owned]) =
+   pm_parse (convs_pm tt_ty simple_type true) (mk 101 [TId k_owned]) /\
+   is_ok (pm_parse (convs_pm tt_ty simple_type true) (mk 101 [TId k_owned])) = true) /\
+  (is_ok (parse_attrs (into_field_pm tt_ty simple_type) 101 [{| a_name := 101; a_meta := MPath |}; {| a_name := 101; a_meta := MPath |}]) = true /\
+   parse_attrs (into_struct_pm tt_ty simple_type) 101 [{| a_name := 101; a_meta := MPath |}; {| a_name := 101; a_meta := MPath |}] = Err ESingle) /\
+  (is_ok (pm_parse (reprconv_pm tt_ty simple_type) (mk 104 [TId k_repr])) = true /\
+   is_ok (pm_parse (reprconv_pm tt_ty simple_type) (mk 104 [TId k_repr; TComma])) = false /\
+   is_ok (pm_parse (dcont_pm tt_ty simple_pred simple_fmt_args) (mk 106 [TId k_rename_all; TPu c_eq; TStr 1])) = true /\
+   is_ok (pm_parse (dcont_pm tt_ty simple_pred simple_fmt_args) (mk 106 [TId k_rename_all; TPu c_eq; TStr 1; TComma])) = false /\
+   is_ok (pm_parse (dfield_pm simple_fmt_args) (mk 105 [TId k_skip])) = true /\
+   is_ok (pm_parse (dfield_pm simple_fmt_args) (mk 105 [TId k_skip; TComma])) = false) /\
+  (exists it c, I_display_attrs 106 it = Ok (c, [], []) /\ dc_rename tt_ty c = Some 1 /\
+                display_uses_rename false 1 = false).
+Proof. exact L_C17_known_findings_refuted_2. Qed.
+Print Assumptions C17_known_findings_refuted_2.
